@@ -845,7 +845,29 @@ var ExtraFaults = []Fault{
 		o := pickItem(r, other)
 		i := r.Intn(len(sch.OpTypes))
 		sch.OpTypes[i].Type = o.Name
-		return items, []string{o.Name}, true
+		inv := []string{o.Name}
+		if r.Bool() {
+			// two (or three) roots that are not objects, each of another type where there are several: a loader that looks
+			// at the roots in no particular order names now this one, now that one
+			for _, op := range []string{"query", "mutation", "subscription"} {
+				o2 := pickItem(r, other)
+				found := false
+				for k := range sch.OpTypes {
+					if sch.OpTypes[k].Op == op {
+						found = true
+						if k != i {
+							sch.OpTypes[k].Type = o2.Name
+							inv = append(inv, o2.Name)
+						}
+					}
+				}
+				if !found && r.Bool() {
+					sch.OpTypes = append(sch.OpTypes, m.OpType{Op: op, Type: o2.Name})
+					inv = append(inv, o2.Name)
+				}
+			}
+		}
+		return items, inv, true
 	}},
 	{"extension-kind-mismatch", func(r *core.Rand, items []*m.Item) ([]*m.Item, []string, bool) {
 		it := pickItem(r, itemsOfKind(items, false, "type", "interface", "input", "enum", "union", "scalar"))
